@@ -9,6 +9,8 @@ BOUNDS = {'quick': {'kani': (4, 3), 'labels': 2, 'tables': 2}, 'thorough': {'kan
 # programs for the native replay of kernel findings (public API: hover), with the type Gleam assigns
 CORPUS = [
     ('fn scale(factor factor: Int, value value: Float) -> Float { value }\nfn capture() { let g = scale(value: 2.5, factor: 1)  g }\n', 'g =', 'Float'),
+    ('fn scale(factor factor: Int, value value: Float) -> Float { value }\nfn capture() { let g = scale(2.5, factor: _)  g }\n', 'g =', 'fn(Int) -> Float'),
+    ('fn build(name name: String, weight weight: Float, flag flag: Bool) { #(name, weight, flag) }\nfn capture3() { let h = build(1.5, name: _, flag: True)  h }\n', 'h =', 'fn(String) -> #(String, Float, Bool)'),
     ('fn pair(a a: Int, b b: String) { #(a, b) }\nfn use_it() { let r = pair(b: "x", a: 1)  r }\n', 'r =', '#(Int, String)'),
     ('fn apply(f: fn(Int) -> String, x: Int) { f(x) }\nfn main() { let s = apply(fn(i) { "a" }, 1)  s }\n', 's =', 'String'),
     ('fn id(x) { x }\nfn main() { let a = id(1)  let b = id("s")  #(a, b) }\n', 'b =', 'String'),
@@ -35,6 +37,11 @@ def run_kernel(chk, tier, jobs, props):
         res, complete = explore.explore(unifier.label_factory, (ar,), jobs=jobs)
         chk.add_run('unify two %d-parameter function types: labels from {none,a,b}, base types from {Unknown,Int,String}' % ar, res, complete,
                     {'arity': ar}, nontrivial_classes=lambda c: c in ('unified', 'mismatch'))
+        found += [v for v in res.violations if any(w.startswith(tuple(props)) for w in v['why'])]
+    for kk in range(1, 3 if tier == 'quick' else 4):
+        res, complete = explore.explore(unifier.call_factory, (kk,), jobs=jobs)
+        chk.add_run('infer_expr on a call with %d arguments: labels from {none,a,b}, each argument a capture hole or an Int literal' % kk, res, complete, {'arguments': kk},
+                    nontrivial_classes=lambda c: c in ('call', 'capture'))
         found += [v for v in res.violations if any(w.startswith(tuple(props)) for w in v['why'])]
     for n in range(1, B['tables'] + 1):
         res, complete = explore.explore(unifier.table_factory, (n,), jobs=jobs)
